@@ -55,22 +55,21 @@ def inline_constants(trees, report):
     inv = load_inventory()
     if inv is None:
         return
+    from .refnorm import module_globals
+    import builtins as _b
+
     ref_globals = inv.get("globals", {})
-    consts = {}  # name -> (rel, value)
+    consts = {}  # (rel, name) -> defining statement
     for rel, tree in trees.items():
-        known = set(ref_globals.get(rel, ()))
         if rel not in ref_globals:
             continue
+        known = set(ref_globals.get(rel, ()))
         bound = {}
         for st in tree.body:
             if isinstance(st, ast.Assign) and len(st.targets) == 1 and isinstance(st.targets[0], ast.Name):
                 bound.setdefault(st.targets[0].id, []).append(st)
             elif isinstance(st, ast.AnnAssign) and isinstance(st.target, ast.Name) and st.value is not None:
                 bound.setdefault(st.target.id, []).append(st)
-        from .refnorm import module_globals
-
-        import builtins as _b
-
         stable = {n for n in dir(_b) if not n.startswith("_")} - module_globals(tree)
         for st in tree.body:
             if isinstance(st, (ast.FunctionDef, ast.AsyncFunctionDef, ast.ClassDef)):
@@ -85,16 +84,25 @@ def inline_constants(trees, report):
             stores = [n for n in ast.walk(tree) if isinstance(n, ast.Name) and n.id == name and isinstance(n.ctx, (ast.Store, ast.Del))]
             if len(stores) != 1 or any(isinstance(n, ast.Global) and name in n.names for n in ast.walk(tree)):
                 continue
-            consts[name] = (rel, sts[0])
+            consts[(rel, name)] = sts[0]
     if not consts:
         return
+    modname = lambda rel: rel[:-3].replace("/", ".").rsplit(".__init__", 1)[0]
+    by_mod_tail = {}
+    for (rel, name) in consts:
+        by_mod_tail.setdefault(name, []).append(rel)
     for rel, tree in trees.items():
-        visible = {n for n, (r, _) in consts.items() if r == rel}
+        visible = {name: consts[(r, name)] for (r, name) in consts if r == rel}
+        origin = {name: rel for name in visible}
         for st in ast.walk(tree):
-            if isinstance(st, ast.ImportFrom):
+            if isinstance(st, ast.ImportFrom) and st.module is not None or isinstance(st, ast.ImportFrom):
                 for al in st.names:
-                    if al.asname is None and al.name in consts and consts[al.name][0] != rel:
-                        visible.add(al.name)
+                    if al.asname is None and al.name in by_mod_tail and al.name not in visible:
+                        tail = (st.module or "").split(".")[-1]
+                        cands = [r for r in by_mod_tail[al.name] if modname(r).split(".")[-1] == tail]
+                        if len(cands) == 1:
+                            visible[al.name] = consts[(cands[0], al.name)]
+                            origin[al.name] = cands[0]
         if not visible:
             continue
         pm = _parents(tree)
@@ -105,29 +113,26 @@ def inline_constants(trees, report):
                 shadow[id(n)] = loc
         for n in list(ast.walk(tree)):
             if isinstance(n, ast.Name) and isinstance(n.ctx, ast.Load) and n.id in visible and n.id not in shadow.get(id(n), ()):
-                value = consts[n.id][1].value
+                value = visible[n.id].value
                 par = pm.get(id(n))
                 if not _immutable_literal(value):
                     membership = isinstance(par, ast.Compare) and len(par.ops) == 1 and isinstance(par.ops[0], (ast.In, ast.NotIn)) and par.comparators[0] is n
                     lookup = isinstance(par, ast.Subscript) and par.value is n and isinstance(par.ctx, ast.Load)
                     if not (membership or lookup):
                         continue
-                if consts[n.id][0] != rel and any(isinstance(x, ast.Name) for x in ast.walk(value)):
+                if origin[n.id] != rel and any(isinstance(x, ast.Name) for x in ast.walk(value)):
                     continue  # names of the defining module are not necessarily visible here
                 new = copy.deepcopy(value)
                 for x in ast.walk(new):
                     ast.copy_location(x, n)
                 _replace(par, n, new)
                 report.append(("inlined-constant", f"{rel}:{n.id}"))
-    # drop definitions without remaining reads
-    for name, (rel, st) in consts.items():
-        reads = sum(1 for t in trees.values() for n in ast.walk(t) if isinstance(n, ast.Name) and n.id == name and isinstance(n.ctx, ast.Load))
-        if reads == 0:
+    # drop definitions without remaining reads in their own module (and no importer left)
+    for (rel, name), st in consts.items():
+        reads = sum(1 for n in ast.walk(trees[rel]) if isinstance(n, ast.Name) and n.id == name and isinstance(n.ctx, ast.Load))
+        imported = any(isinstance(s, ast.ImportFrom) and any(a.name == name for a in s.names) for r2, t in trees.items() if r2 != rel for s in ast.walk(t))
+        if reads == 0 and not imported:
             trees[rel].body = [s for s in trees[rel].body if s is not st]
-            for t in trees.values():
-                for s in ast.walk(t):
-                    if isinstance(s, ast.ImportFrom) and len(s.names) > 1:
-                        s.names = [a for a in s.names if a.name != name]
 
 
 def _replace(parent, old, new):
